@@ -111,6 +111,12 @@ fn compare(op: &Op, shadow: &Tree, a: &Outcome, b: &Outcome) -> Result<(), Strin
             if missing_in_dir && op.dest().is_none() && (x.class == ErrClass::NotFound) != (y.class == ErrClass::NotFound) {
                 return Err(format!("not-found classification differs for a target missing from an existing directory: MemoryFS {:?}, PhysicalFS {:?}", x.class, y.class));
             }
+            // ... and a call that fails on an EXISTING target must not be classified as
+            // not-found by one backend only (paths below a file are left out: MemoryFS reports
+            // not-found there, the OS reports ENOTDIR, and the property accepts both)
+            if shadow.exists(t) && op.dest().is_none() && (x.class == ErrClass::NotFound) != (y.class == ErrClass::NotFound) {
+                return Err(format!("a failing call on the existing entry '{}' is classified as not-found by one backend only: MemoryFS {:?}, PhysicalFS {:?}", t, x.class, y.class));
+            }
             Ok(())
         }
         _ => Err(format!("MemoryFS: {} but PhysicalFS: {}", a.render(), b.render())),
